@@ -282,7 +282,7 @@ def _run(chk):
     import peptacular as pt
     from peptacular.mods import mod_db_setup as S, mod_db as MD
     from peptacular import constants as K
-    from peptacular.proforma.proforma_parser import Mod
+    from peptacular.proforma.proforma_dataclasses import Mod  # where it is defined (not a re-export)
     tier = chk.tier
     rng = chk.rng
     _t = [time.time()]
@@ -291,12 +291,7 @@ def _run(chk):
         if os.environ.get('VERIF_TIMING'):
             print(f'[timing] {what}: {time.time() - _t[0]:.1f}s', file=sys.stderr)
         _t[0] = time.time()
-    try:
-        chk.generated_changed += TV.translate()
-    except TV.TranslateError as e:
-        # the loaded vocabularies are inconsistent (index not 'last entry wins', non-finite mass, ...): reported, the tables
-        # generated last time stay in place
-        chk.disagreements.append({'op': 'translate_vocab', 'line': 'loaded tables -> Lean', 'impl': str(e)[:500], 'model': 'n/a'})
+    TV.translate_into(chk)  # never raises: a failed dump is a reported item, the previous tables stay
     PROPS = ['PeptVerif.Props.C10', 'PeptVerif.Props.C10TabU', 'PeptVerif.Props.C10TabP', 'PeptVerif.Props.C10TabX',
              'PeptVerif.Props.C10Mass', 'PeptVerif.Props.C10Generic', 'PeptVerif.Props.C10Glycan'] + (
                  ['PeptVerif.Props.C10Resolve'] if os.path.exists(os.path.join(core.LEAN, 'PeptVerif', 'Props', 'C10Resolve.lean'))
@@ -341,7 +336,7 @@ def _run(chk):
     # ------------------------------------------------------------ (0) tables: raw OBO vs loaded vs Lean literals
     tab_cases = []
     for kind, es in entries.items():
-        raw = TV.raw_obo(LEANMOD[kind])
+        raw = TV.raw_obo_safe(chk, LEANMOD[kind]) or []
         n = int(chk.driver(DRV, [f'count\t{kind}'])[0])
         if n != len(es) or len(raw) != len(es):
             chk.disagreements.append({'op': 'table_size', 'line': kind, 'impl': f'loaded {len(es)} raw {len(raw)}',
